@@ -45,10 +45,10 @@ impl Property for C14 {
         "C14"
     }
     fn rule(&self) -> &'static str {
-        "gen words: every 16-bit header word w (key = w>>8, 256 words per key); gen triples: every (kind, label type, length) triple (key = kind*4+lt, 4096 lengths per key). gen decap-view: every word as the first two bytes of buffers of 2..8 bytes, of the announced packet length -1/+0/+1 and of 4100 bytes (zero or 0xA5 filled): decap never panics, answers Padding consuming the buffer, and the peek answers ErrHeaderRead, exactly for the padding pattern. gen emit-view: the encoder as used by encap / encap_ext / encap_frag over buffers 4088..=4104 and up to 70000 bytes: the header word of every reported packet decodes to the reported length - 2, the reported kind and the label type written. A case is non-trivial when the word / triple is not the padding pattern (it exercises decode+re-encode); fingerprint = the word or the triple."
+        "gen words: every 16-bit header word w (key = w>>8, 256 words per key); gen triples: every (kind, label type, length) triple (key = kind*4+lt, 4096 lengths per key). gen decap-view: every word as the first two bytes of buffers of 2..8 bytes, of the announced packet length -1/+0/+1 and of 4100 bytes (zero or 0xA5 filled): decap never panics, answers Padding consuming the buffer, and the peek answers ErrHeaderRead, exactly for the padding pattern. gen emit-view: the encoder as used by encap / encap_ext / encap_frag over buffers 4088..=4104 and up to 70000 bytes: the header word of every reported packet decodes to the reported length - 2, the reported kind and the label type written (also when the preceding packet carried the same label, and along runs of one label under re-use limits 0,1,2,3,5: the GSE length must account for exactly the label bytes the announced type implies); in decap-view a long-lived receiver also sees a padding buffer before every short buffer and must not answer Padding for the next header word. A case is non-trivial when the word / triple is not the padding pattern (it exercises decode+re-encode); fingerprint = the word or the triple."
     }
     fn gens(&self, _cx: &Cx) -> Vec<Gen> {
-        vec![Gen { name: "words", count: 256, exhaustive: true }, Gen { name: "triples", count: 16, exhaustive: true }, Gen { name: "decap-view", count: 256, exhaustive: true }, Gen { name: "emit-view", count: 4 * 3, exhaustive: true }]
+        vec![Gen { name: "words", count: 256, exhaustive: true }, Gen { name: "triples", count: 16, exhaustive: true }, Gen { name: "decap-view", count: 256, exhaustive: true }, Gen { name: "emit-view", count: 4 * 3 + 4, exhaustive: true }]
     }
     fn run_key(&self, cx: &Cx, gen: &str, key: u64, rep: &mut Report) {
         let replay = |k: u64| format!("gen={} key={} seed={} profile={}", gen, k, cx.seed, cx.profile);
@@ -108,6 +108,9 @@ impl Property for C14 {
                 // (consuming the whole buffer) and the peek answers ErrHeaderRead exactly for the padding pattern
                 use crate::util::*;
                 use dvb_gse_rust::gse_decap::{DecapStatus, GetLabelorFragIdError};
+                // one receiver lives through the whole key and sees a padding buffer before every word: what it answered
+                // for padding must not stick to the next header word
+                let mut shared = plain_dec(2, 16, 4, 16, wire::MandTable::none());
                 for lo in 0..256u64 {
                     let w = ((key << 8) | lo) as u16;
                     let pad = wire::is_padding_word(w);
@@ -124,6 +127,17 @@ impl Property for C14 {
                         let mut d = plain_dec(2, 16, 1, 16, wire::MandTable::none());
                         let pk = guard(|| d.get_label_or_frag_id(&buf));
                         let r = dec_guard(&mut d, &buf);
+                        if !pad && blen <= 8 {
+                            let _ = dec_guard(&mut shared, &[0u8, 0, 0, 0]);
+                            let rs = dec_guard(&mut shared, &buf);
+                            rep.eval();
+                            if matches!(&rs, Ok(Ok((DecapStatus::Padding, _)))) {
+                                rep.violation("C14", "decap-padding-for-non-padding-word:after-padding".into(), || format!("a receiver that has just seen padding answers Padding for a {}-byte buffer starting with {:#06x}", blen, w), || replay(key));
+                            }
+                            if let Ok(Ok((DecapStatus::CompletedPkt(b, _), _))) = rs {
+                                let _ = shared.provision_storage(b);
+                            }
+                        }
                         if let Err(p) = &r {
                             // "reading any of the 65536 fixed-header values never panics", seen through decap
                             rep.violation("C14", format!("decap-view-panic:{}", crate::mon::panic_class(p)), || format!("decap of a {}-byte buffer starting with {:#06x} panicked: {}", blen, w, p), || replay(key));
@@ -148,6 +162,57 @@ impl Property for C14 {
                         }
                         if !pad {
                             rep.nontrivial(0x2_0000_0000 + ((w as u64) << 13) + blen as u64);
+                        }
+                    }
+                }
+            }
+            "emit-view" if key >= 12 => {
+                // runs of packets with ONE label under a re-use limit N: packets 2..=N+1 re-use the label, packet N+2
+                // carries it again; for each packet the label type announced must be the label layout written
+                use crate::util::*;
+                use dvb_gse_rust::gse_encap::{EncapMetadata, EncapStatus, Encapsulator};
+                use dvb_gse_rust::header_extension::Extension;
+                use dvb_gse_rust::label::Label;
+                let k = key - 12;
+                let lti = (k % 2) as u8;
+                let call = (k / 2) % 2; // 0 encap, 1 encap_ext with an optional extension
+                let label = if lti == 0 { Label::SixBytesLabel([1, 2, 3, 4, 5, 6]) } else { Label::ThreeBytesLabel([7, 8, 9]) };
+                for nmax in [0u8, 1, 2, 3, 5] {
+                    for fragmenting in [false, true] {
+                        let mut enc = Encapsulator::new(dvb_gse_rust::crc::DefaultCrc {});
+                        if nmax > 0 {
+                            enc.enable_re_use_label_with_max_consecutive(nmax);
+                        }
+                        let pl = if fragmenting { 300usize } else { 20 };
+                        let pdu = sentinel(pl, 9);
+                        for i in 0..(nmax as usize + 4) {
+                            rep.eval();
+                            let mut buf = vec![0u8; 64];
+                            let exts = vec![Extension::new(0x0233, &[0xE1, 0xE2]).unwrap()];
+                            let ext_extra = if call == 1 { 4usize } else { 0 };
+                            let meta = EncapMetadata::new(0x0800, label);
+                            let r = if call == 0 { enc_guard(&mut enc, &pdu, i as u8, meta, &mut buf) } else { enc_ext_guard(&mut enc, &pdu, i as u8, meta, &mut buf, exts) };
+                            let (n, carried, first) = match r {
+                                Ok(Ok(EncapStatus::CompletedPkt(n))) => (n as usize, pl, false),
+                                Ok(Ok(EncapStatus::FragmentedPkt(n, c))) => (n as usize, c.len_pdu_frag() as usize, true),
+                                _ => {
+                                    rep.count("emit.run-call-failed");
+                                    break;
+                                }
+                            };
+                            if n < 2 || n > buf.len() {
+                                break;
+                            }
+                            let w = u16::from_be_bytes([buf[0], buf[1]]);
+                            let wl = wire::lt_of_word(w);
+                            let glen = (w & 0x0FFF) as usize;
+                            let fixed = if first { 3 } else { 0 } + 2 + wire::lt_len(wl) + ext_extra;
+                            rep.nontrivial(0x5_0000_0000 + ((w as u64) << 12) + (key << 8) + ((nmax as u64) << 4) + i as u64);
+                            if glen + 2 != n || glen != fixed + carried || (wl != lti && wl != 3) {
+                                rep.violation("C14", format!("emit-view:run:{}:label-type-vs-length", if call == 0 { "encap" } else { "encap_ext" }), || format!("packet {} of a run with label type {} under re-use limit {} ({}, reported {} bytes): header word {:#06x} announces label type {} and GSE length {}, but the fields of such a packet with {} payload bytes take {} bytes", i + 1, lti, nmax, if first { "first fragment" } else { "complete" }, n, w, wl, glen, carried, fixed + carried), || replay(key));
+                                break;
+                            }
+                            rep.count("emit.run-packets");
                         }
                     }
                 }
